@@ -102,6 +102,21 @@ CLAIMED = {
             'Numerical agreement of numpy/scipy leaves is decided against mpmath at rtol 1e-9 / atol 1e-11, not by TLC. '
             'Trusted: vh/xr.py (XR interpreter), vh/invcdf.py (exact inverse-CDF placement, checked itself under C06).',
             '5/C05'),
+    'C06': ('TLA+ spec of inverse-CDF placement and of both samplers (N-draw accumulation, rejection loop) with safety and '
+            'liveness checked by TLC; every simulated catalog of the real Poisson / binary / Brier tests recorded by '
+            'harness-side wrappers and replayed draw by draw by TLC (TraceInvCdfSim); quantile and seed-determinism records',
+            'TLC checks PlaceIsInverseCdf, NeverZeroRateBin, UniqueBin, Conserved, DistinctActiveCells, AllowedIsSound for '
+            'all weight vectors (zeros anywhere) x all draw positions (on / just above / interior / just below every unit) and '
+            'Terminates under weak fairness; the side=left variant must be refuted. On the real code, rate arrays built from '
+            'integer weights (dyadic units: exact cumulative floats, strict placement; decimal units: either neighbour inside '
+            'an ulp band) and random arrays up to 1000 bins are simulated through the public tests with uniform numbers on and '
+            'around every cumulative boundary, 0 and the largest double below 1; the rejection loop is additionally fed '
+            'scripted boundary draws. Each captured catalog must be reproducible by TLC from the projected draws, conserve the '
+            'prescribed count, and never touch a zero-rate bin; quantile numerators and repeated-seed digests (seeds 0, 1, '
+            '2^32-1) are checked in the same batch.',
+            'Float-level placement next to a boundary of an inexact cumulative array is only constrained to the two '
+            'adjacent positive-rate bins. Trusted: vh/invcdf.py (exact rational cumulative boundaries), the capture wrappers.',
+            '5/C06'),
 }
 
 NOT_YET = 'check not built yet in this round (specification planned in DESIGN.md section 5); not claimed until it exists'
